@@ -612,6 +612,12 @@ func gxRegexp(r *rng, salt string) *GX {
 	}
 	if salt != "" {
 		expr = expr + `(?:` + salt + `)?` // unique pattern text: the caches are process wide
+		if r.chance(1, 2) {
+			// a large character class that no earlier round used: its rune table is expanded and cached on first use
+			h := hashStr(salt)
+			lo := rune(0x4e00 + h%2000)
+			expr = fmt.Sprintf(`[%c-%c%c]{1,3}`, lo, lo+rune(6000+h%9000), rune(0x1F600+h%64)) + `(?:` + salt + `)?`
+		}
 	}
 	re := regexp.MustCompile(expr)
 	if r.chance(1, 2) {
